@@ -214,6 +214,15 @@ func buildBatchWorld(root string, days int) *batchWorld {
 	p3.Soil.Hor = []proj.Horizon{{Tex: "SL3", Lower: 6, BD: 3, Corg: 1, CN: 10, PS: 45, Sand: 50, Silt: 20, Clay: 10}}
 	p3.Config["PTF"] = "1"
 	p3.Write(root)
+	// p5: one weather file per year, the run crosses the year change and the file of the second year does not exist
+	{
+		b5 := e1Base{Soil: "loam12", GW: 99, InitW: 0.6, InitN: 30, ET: 3, Start: "2001-12-30"}
+		p5 := e1Project(b5, days+4)
+		p5.ID, p5.FCode, p5.Layout = "p5", "Y5", 1
+		p5.Config["ManagementEvents"] = "1"
+		p5.Weather = e1Weather(0, []string{}, false)[:5] // 27 December .. 31 December
+		p5.Write(root)
+	}
 	// a weather file with a gap inside the simulated period (selected with fcode=WG)
 	if wtxt, err := os.ReadFile(filepath.Join(root, "weather", "w", "W.csv")); err == nil {
 		ls := strings.Split(string(wtxt), "\n")
@@ -264,6 +273,7 @@ func buildBatchWorld(root string, days int) *batchWorld {
 		"Fptf":   "project=p3 plotNr=1 fcode=W parameter=par poligonID=K",
 		"Fgap":   "project=p2 plotNr=1 fcode=WG parameter=par poligonID=L",
 		"Fargs":  "plotNr=1 fcode=W",
+		"Fgap0":  "project=p5 plotNr=1 fcode=Y5 parameter=par poligonID=R",
 		// start year after the last year of the weather series (no year of the series is loaded at all)
 		"Flate": "project=p2 plotNr=1 fcode=W parameter=par poligonID=N StartYear=2005",
 	}}
